@@ -5,12 +5,14 @@ Suites
                          the Coq writer model must produce exactly the lines rdflib produces and the Coq strict
                          W3C reader must read rdflib's actual lines/documents back to the terms of the case.
   langtag  (proof tie)   py_valid_langtag <-> term._is_valid_langtag
-  ntread   (proof tie)   coq/Grammar/Reader.v <-> parsers/ntriples.py, nquads.py: documents in every legal
-                         N-Triples/N-Quads spelling (independent writer below); the Coq strict reader decides what they mean.
+  ntread   (model tie, spec = Coq strict reader)  coq/Grammar/Reader.v <-> parsers/ntriples.py, nquads.py, compat.py:
+                         documents in every legal N-Triples/N-Quads spelling (independent writer below) and the 157 files
+                         of the W3C N-Triples/N-Quads syntax suites; the Coq strict reader decides what they mean.
   spell    (conformance) independent randomised writer for Turtle, TriG, RDF/XML, JSON-LD; Graph().parse must give the
                          graph the writer was given (brute-force isomorphism oracle, independent of rdflib.compare).
-  sources  (conformance) the same document as str, bytes, text file, binary file and path gives the same graph;
-                         rdflib's XML and JSON outputs are well-formed.
+  sources  (conformance) the same document as str, bytes, StringIO, BytesIO, text file, binary file and path gives the
+                         same graph; rdflib's XML and JSON outputs are well-formed.
+  xmlout   (conformance) RDF/XML output well-formedness on and around the regions of findings C05j/C05k.
 """
 from __future__ import annotations
 
@@ -39,7 +41,7 @@ from rdflib.term import _is_valid_langtag  # noqa: E402
 TRUSTED = [
     "Coq 8.16.1 kernel and vm_compute",
     "the transcription of the W3C RDF 1.1 N-Triples/N-Quads EBNF in coq/Grammar/Model.v Part A (strict reader; reviewed "
-    "production by production, exercised on the W3C positive/negative syntax tests by suite 'w3c')",
+    "production by production, and run on all W3C N-Triples/N-Quads positive and negative syntax tests by suite 'ntread')",
     "harness/c05.py: conversion of rdflib terms to code-point lists (str.__str__, ord) and the case generators",
     "harness/reflect_c05.py: reflection of _invalid_uri_chars, DATASET_DEFAULT_GRAPH_ID, the reader's regular expressions",
     "for the conformance suites (spell, sources): the independent writers and the brute-force isomorphism oracle in this file, "
@@ -565,7 +567,7 @@ def g_iri(rng):
 
 
 T_LEX = ["", "x", 'a"b', "a'b", "a\\b", "a\nb", "a\rb", "é中\U0001F600", '"', "'", '""', "''", "x" + DQ3 + "y", "x" + SQ3, "\t",
-         " x ", "\\n", "a\r\nb", '"x"', "end\\"]
+         " x ", "\\n", "a\r\nb", '"x"', "end\\", "\b\f", "a\fb\x08", "\t'\""]
 NUMS = [("integer", ["5", "-3", "0", "+7", "007"]), ("decimal", ["1.5", "-0.5", ".5", "+2.0"]),
         ("double", ["1e3", "1.5E0", "-1.5e-2", ".5e1", "1.E3", "1E+2"]), ("boolean", ["true", "false"])]
 
@@ -1301,7 +1303,7 @@ class Sources(Conf):
                     g.add((s, p, o))
             # outside findings C05j ('%' in a predicate's local name) and C05k (control characters in a literal): see suite xmlout
             for s, p, o in list(g):
-                if "%" in p or (isinstance(o, Literal) and not xml_ok(str(o))):
+                if "%" in p or (isinstance(o, Literal) and not xml_ok(str(o))) or (str(p) == RDF + "type" and "%" in o):
                     g.remove((s, p, o))
             wrote = 0
             for xf in ("xml", "pretty-xml"):
@@ -1342,7 +1344,7 @@ class XmlOut(Conf):
 
     def gen(self, rng, i):
         return {"format": rng.choice(["xml", "pretty-xml"]), "pred": rng.choice(self.PREDS), "lit": rng.choice(self.LITS),
-                "kind": rng.choice(["plain", "lang", "dt"])}
+                "kind": rng.choice(["plain", "lang", "dt", "type"])}
 
     def sweep(self):
         for f in ("xml", "pretty-xml"):
@@ -1350,8 +1352,11 @@ class XmlOut(Conf):
                 for l_ in self.LITS:
                     for k in ("plain", "lang", "dt"):
                         yield {"format": f, "pred": p, "lit": l_, "kind": k}
+                yield {"format": f, "pred": p, "lit": "x", "kind": "type"}
 
     def predicted(self, case):
+        if case["kind"] == "type":     # (s, rdf:type, <pred>): pretty-xml uses the type as the node element's name
+            return (10, ["wellformed"]) if "%" in case["pred"] and case["format"] == "pretty-xml" else (0, [])
         if "%" in case["pred"]:
             return 10, ["wellformed"]
         if not xml_ok(case["lit"]):
@@ -1360,9 +1365,12 @@ class XmlOut(Conf):
 
     def run_impl(self, case):
         g = Graph()
-        lit = Literal(case["lit"]) if case["kind"] == "plain" else Literal(case["lit"], lang="en") if case["kind"] == "lang" \
-            else Literal(case["lit"], datatype=URIRef(NS_E + "dt"))
-        g.add((URIRef(NS_E + "s"), URIRef(case["pred"]), lit))
+        if case["kind"] == "type":
+            g.add((URIRef(NS_E + "s"), URIRef(RDF + "type"), URIRef(case["pred"])))
+        else:
+            lit = Literal(case["lit"]) if case["kind"] == "plain" else Literal(case["lit"], lang="en") if case["kind"] == "lang" \
+                else Literal(case["lit"], datatype=URIRef(NS_E + "dt"))
+            g.add((URIRef(NS_E + "s"), URIRef(case["pred"]), lit))
         try:
             out = g.serialize(format=case["format"])
         except Exception:  # noqa: BLE001
@@ -1372,9 +1380,6 @@ class XmlOut(Conf):
             return {"wellformed": True}
         except Exception:  # noqa: BLE001
             return {"wellformed": False}
-
-    def coq_case(self, case):
-        return Conf.coq_case(self, dict(case, format="xml"))
 
 
 SUITES = [NtOut(), LangTag(), NtRead(), Spell(), Sources(), XmlOut()]
